@@ -50,4 +50,11 @@ CHECKS["C08"] = dict(
 CHECKS["C10"] = dict(
    text="Held on the sampled parameters/time ratios/similarity coordinates: x/t similarity (both Riemann solvers, Noh, Cog19, EHEP region I, Mader with scaled cell grid), Sedov exponents on node-aligned grids, Guderley power-law prefactors and lambda read back from the solver's two-point ratios. Sampling, not proof.",
    design_ref="5/C10", note=_T, technique="metamorphic relation monitor (similarity map) on pairs of recorded public calls")
+CHECKS["C11"] = dict(
+   text="Held on the sampled (geometry, gamma, omega, rho0, E0, t) cases whose quadrature is resolvable on the solver's 3001 nodes: blast energy and enclosed mass by Simpson on node-aligned radii (three-level convergence check), undisturbed state ahead of the front. Unresolvable thin-shell cases are counted as inconclusive. Sampling, not proof.",
+   design_ref="5/C11", note=_T + "; the truncated inner core's returned mass/kinetic energy is added to the tolerance",
+   technique="conservation monitor over a recorded public call (quadrature of returned fields)")
+CHECKS["C12"] = dict(
+   text="Held on the sampled (M0, gamma, Cv, Tref, rho0, cross-section, closure) profiles that the constructors produce: time translation through the public call with the sound speed computed from the user's parameters, constancy of mass/momentum/energy flux along the profile attributes, equilibrium end states. Sampling, not proof; ED's last profile point is a listed known finding; FLD closures are decided on mass flux, translation and end states only.",
+   design_ref="5/C12", note=_T, technique="trace-invariant monitor on solver profile attributes + metamorphic time-translation relation on public calls")
 NOT_YET = {}
